@@ -24,7 +24,10 @@ RULE = (
 
 B_SPECIAL = ["> quote\n2. item\n", "> quote\n-\n", "> q\n7) x\n\ntail\n", "# h\n2. x\n", "***\n-\n", "> a\n===\n", "> a\nlazy\n- x\n",
              "- a\n\n  b\n- c\n", "1. a\n\n   b\n", "```\nx\n```\n3. y\n", "> - a\n> - b\n2. c\n", "|a|b|\n|-|-|\n|1|2|\nx\n", "<div>\n2. x\n</div>\n",
-             "> q\n1. x\n", "[r]: /u\n2. x\n", "> q\n    code\n", "* a\n+ b\n- c\n"]
+             "> q\n1. x\n", "[r]: /u\n2. x\n", "> q\n    code\n", "* a\n+ b\n- c\n",
+             # reference definitions spread over lines that look like list items / other blocks (label, destination, title)
+             "[foo\n2. bar]: /url\n", "[foo\n-\nbar]: /url\n", "[foo]:\n2. /url\n", "[foo]: /url\n'title\n2. more'\n", "[foo\n7) x\n]: /u\ntail\n",
+             "[a\n> b]: /u\n", "[a\n# b]: /u\n", "[a\n***\nb]: /u\n"]
 A_SPECIAL = ["intro\n", "intro\n\n# title\n", "# title\n", "- a\n\npara\n", "> q\n\npara\n", "para\nmore\n", "a\n===\n", "    code\n\npara\n",
              "```\nf\n```\n", "***\n", "[x]: /u\n\npara\n"]
 
